@@ -528,6 +528,10 @@ def twodspectrum_dictionary(name, dtype):
                 if self.current_dtype not in _ptypes:
                     # check the current_type attribute
                     raise Exception("Wrong pathways type")
+
+                if self.current_tag is None:
+                    # a pathway cannot be stored without a tag
+                    raise Exception("Tag for Liouville pathway not specified")
             
                 try:
                     # get the dictionary of pathways with a give type
